@@ -213,3 +213,19 @@ package kvm
 //@   requires jt != nil
 //@   modifies *jt
 //@   ensures [chainIdPushesOneWord] jt[CHAINID] != nil && jt[CHAINID].minStack == 0 && jt[CHAINID].maxStack == 1023
+
+// ---------------------------------------------------------------- C09: SELFDESTRUCT moves the balance, it never destroys it
+//@ trusted func (s StateDB) Suicide(a common.Address) (r bool)
+//@   modifies s.bal
+//@   ensures s.bal == upd(old(s.bal), a, 0)
+//@ trusted func (s StateDB) HasSuicided(a common.Address) (r bool)
+// Whatever the contract held goes to the beneficiary (every time the instruction runs, also for a
+// contract that already self-destructed earlier in the transaction and received value since); then
+// the contract's balance is zero. If the beneficiary is the contract itself the value is burnt, as in
+// the reference semantics.
+//@ func opSuicide(pc *uint64, kvm *KVM, callContext *ScopeContext) (ret []byte, err error)
+//@   for C09
+//@   requires kvm != nil && kvm.StateDB != nil && callContext != nil && callContext.Contract != nil && callContext.Stack != nil && kvm.interpreter != nil && !kvm.interpreter.cfg.Debug
+//@   modifies *
+//@   atcall StateDB.AddBalance requires [wholeBalanceCredited] amount != nil && amount.v == s.bal[refAddr(callContext.Contract.self)]
+//@   ensures [valueMovedNotDestroyed] exists b common.Address :: kvm.StateDB.bal == upd(upd(old(kvm.StateDB.bal), b, old(kvm.StateDB.bal)[b] + old(kvm.StateDB.bal)[refAddr(callContext.Contract.self)]), refAddr(callContext.Contract.self), 0)
